@@ -333,6 +333,14 @@ def run(pid, spec, tier, seed, replay=None):
         d2, t2, c2 = orch.execute(rb, spec["race_extra"](seed), "%s-%s-race" % (pid, tier))
         traces = traces + t2
         crashes = crashes + c2
+    conf_future = None
+    if nreplay:
+        # strict conformance at quiescent points of the replayed model behaviours (spec/TunnelTrace.tla): runs
+        # next to the monitor and the model checker
+        import concurrent.futures as cf
+        from . import modelconf
+        conf_pool = cf.ThreadPoolExecutor(max_workers=1)
+        conf_future = conf_pool.submit(modelconf.check, list(traces), ms, "%s-%s" % (pid, tier), 16 if tier == "quick" else 0)
     viols, lines, states = orch.validate(traces)
     n, distinct = orch.count_traces(traces)
     mc_states = mc_trans = 0
@@ -357,7 +365,22 @@ def run(pid, spec, tier, seed, replay=None):
             skips += sum(1 for ln in open(tf) if ln.startswith('{"ev":"skip"'))
         except OSError:
             pass
+    conf = {}
+    if conf_future is not None:
+        try:
+            conf = conf_future.result()
+        except orch.Infra as e:
+            conf = {"error": str(e)[:300]}
+        conf_pool.shutdown()
+        if conf.get("rejected") or conf.get("error"):
+            # the implementation is no longer the modelled design on these schedules (or the model is wrong):
+            # not a verdict about a property; the evidence records it
+            print("NOTE model-divergence: %d of %d replayed model behaviours are not explained by spec/Tunnel.tla (%s)" % (
+                conf.get("rejected", 0) + (conf.get("error") if isinstance(conf.get("error"), int) else 0), conf.get("checked", 0),
+                (conf.get("rejections") or [{}])[0].get("detail", "")[:160]))
+        mc_states += conf.get("states", 0)
     cov = {
+        "model_conformance": conf,
         "states": states + mc_states, "transitions": states + mc_trans,
         "trace_validation_states": states, "model_instances": mc_runs,
         "model_behaviours_replayed_on_impl": nreplay, "driver_steps_not_executable": skips,
